@@ -834,6 +834,11 @@ def annot_eval(ctx, skel_i, pal_i, devs, memo, hang_memo=None):
         skip = hang_memo.get("+".join(ext), False)
     fmts = FORMATS if wants_cbcif(SKELETONS[skel_i], devs) else FORMATS[:2]
     merged = eval_spec(spec, ctx=ctx, isolate_cbcif=bool(ext), skip_cbcif=skip, fmts=fmts)
+    if spec["bonds"] is not None and any(a[5] == "" or a[3] == "" for a in spec["atoms"]):
+        # empty atom / residue name together with bonds: BadStructureError is the announced answer of
+        # set_structure; the statement is silent -> that error or the exact round trip
+        merged.pop("set_structure_raises_BadStructureError", None)
+        merged["_unspecified"] = {"fmts": [], "exp": None, "obs": None}
     if skip:
         merged["_cbcif_skipped"] = {"fmts": [], "exp": None, "obs": None}
     if ext and hang_memo is not None and any(k.startswith("hang_") for k in merged):
@@ -854,7 +859,7 @@ def annot_case(ctx, skel_i, pal_i, devs, memo, hang_memo=None):
     if "_cbcif_skipped" in merged:
         ctx.count("cbcif_skipped_after_hang")
     ctx.ev(1, 1 if devs else 0)
-    ctx.count("accepted")
+    ctx.count("unspecified" if "_unspecified" in merged else "accepted")
     ctx.outcome(("annot", merged.get("_seen", {}).get("obs"), outcome_key(merged)))
     if len(ctx.samples) < 2 and len(devs) >= 2:
         ctx.sample(case)
@@ -887,10 +892,6 @@ def annot_case(ctx, skel_i, pal_i, devs, memo, hang_memo=None):
         ctx.violation("roundtrip|%s|%s|%s" % (fl, kind, cls),
                       "write/read cycle does not return the structure (%s) for deviations %s" % (kind, cls),
                       case, ent["exp"], ent["obs"])
-
-
-def key_of(devs):
-    return json.dumps(devs, sort_keys=True)
 
 
 def run_annot(shard, ctx):
@@ -2004,8 +2005,8 @@ ASSUMPTIONS = [
     "ladder, on every single-edge bond case; extreme coordinates (float32 min-normal, 3.4e38) run in a forked child "
     "with a %.0f s time-out and, after the first time-out of a class inside a shard, the remaining compressed "
     "evaluations of that class are skipped and counted (cbcif_skipped_after_hang)" % 4.0,
-    "empty atom / residue names together with bonds (documented BadStructureError) and '.'/'?' as annotation values "
-    "(CIF text layer, property C06) are not generated",
+    "an empty atom name together with bonds: the BadStructureError set_structure announces or the exact round trip "
+    "(counted as unspecified); '.'/'?' as annotation values (CIF text layer, property C06) are not generated",
     "bond lists that the format cannot express (no link between consecutive standard residues, different bonds in "
     "residues of one name, no intra-residue bond at all) are generated and reported under their own signatures",
 ]
